@@ -601,13 +601,15 @@ GAPS_US = [60 * US, 300 * US, 3600 * US, 86400 * US, 3 * 86400 * US, 7 * US, 2 *
 @st.composite
 def episode_cases(draw, tier="quick", max_points=10, kinds=None, max_contracts=3, max_delay=2, leverage=2.0,
                   spreads=(0.0, 0.001, 0.02), with_rates=True, with_pings=True, boundary_extras=False,
-                  distinct_actions=False, rewards=None):
-    npts = draw(st.integers(3, max_points))
+                  distinct_actions=False, rewards=None, min_points=3, min_contracts=1, max_extras=8, action_step=0.03):
+    """The defaults bound the size of a case for cost reasons only; the parts named `long` raise them (20-50 timesteps,
+    4-8 contracts, up to 60 extra quotes) through min_points / min_contracts / max_extras."""
+    npts = draw(st.integers(min_points, max_points))
     gaps = draw(st.lists(st.one_of(st.sampled_from(GAPS_US), st.integers(2 * US, 200000 * US)), min_size=npts, max_size=npts))
     mingap = min(gaps[1:])
     lat = draw(st.sampled_from([0, 0, 1, US, mingap // 2, mingap - 1, mingap - US if mingap > US else 1]))
     lat = max(0, min(lat, mingap - 1))
-    n = draw(st.integers(1, max_contracts))
+    n = draw(st.integers(min_contracts, max_contracts))
     kinds = kinds or ["etf", "uspot", "umargin", "es", "umargin"]
     specs = []
     for i in range(n):
@@ -617,7 +619,7 @@ def episode_cases(draw, tier="quick", max_points=10, kinds=None, max_contracts=3
     sp = st.sampled_from(list(spreads))
     bars = [[(draw(st.floats(0.9, 1.1)), draw(sp)) for _ in range(n)] for _ in range(npts)]
     extras = []
-    n_extra = draw(st.integers(0, 8))
+    n_extra = draw(st.integers(0, max_extras))
     offs = [-US, -1, 1, lat - 1, lat, lat + 1, lat + US, mingap // 2, mingap // 3]
     for _ in range(n_extra):
         gi = draw(st.integers(0, npts - 1))
@@ -649,7 +651,7 @@ def episode_cases(draw, tier="quick", max_points=10, kinds=None, max_contracts=3
     base = draw(st.floats(-0.5, 0.5))
     for k in range(nsteps):
         if distinct_actions:
-            w = [max(-leverage, min(leverage, base + (k + 1) * 0.03 + ci * 0.011)) for ci in range(n)]
+            w = [max(-leverage, min(leverage, base + (k + 1) * action_step + ci * 0.011)) / (n if min_contracts > 1 else 1) for ci in range(n)]
         else:
             # weights are 0 or at least 2% (positions inside the documented epsilon snapping band are out of domain)
             w = [draw(st.one_of(st.just(0.0), st.floats(-leverage, leverage).map(lambda x: 0.0 if abs(x) < 0.02 else x))) / n for _ in range(n)]
